@@ -111,12 +111,26 @@ PolyClosed(i, o) ==
 
 (* RBF, pointwise: 0 < K <= 1, K(x,x) = 1 exactly, K(x,z) = 1 only if x = z is NOT
    demanded (tiny gamma*d^2 may round to 1); Taylor enclosure when gamma*d^2 <= 1 *)
-RbfTaylor(gn, gd, d2, v, S) ==
+RbfTaylor2(gn, gd, d2, v, S) ==
     \* 2*gd^2*(1 - t) <= 2*gd^2*K <= 2*gd^2*(1 - t + t^2/2),  t = gn*d2/gd, all times 2^S
     LET a == gn * d2 IN
     (a <= gd /\ gd <= 64 /\ S <= 14) =>
         /\ 2 * v * gd * gd >= Pow2(S) * (2 * gd * gd - 2 * a * gd) - 2 * gd * gd
         /\ 2 * v * gd * gd <= Pow2(S) * (2 * gd * gd - 2 * a * gd + a * a) + 2 * gd * gd
+
+(* two more terms where 24*gd^4*2^S still fits:
+   1 - t + t^2/2 - t^3/6 <= exp(-t) <= 1 - t + t^2/2 - t^3/6 + t^4/24   (0 <= t <= 1) *)
+RbfTaylor4Guard(gd, S) == S <= 20 /\ gd <= 32 /\ 24 * gd * gd * gd * gd <= Pow2(30 - S)
+
+RbfTaylor4(gn, gd, d2, v, S) ==
+    LET a == gn * d2
+        g4 == gd * gd * gd * gd
+        low == 24 * g4 - 24 * a * gd * gd * gd + 12 * a * a * gd * gd - 4 * a * a * a * gd
+    IN  (a <= gd /\ RbfTaylor4Guard(gd, S)) =>
+            /\ 24 * g4 * v >= Pow2(S) * low - 24 * g4
+            /\ 24 * g4 * v <= Pow2(S) * (low + a * a * a * a) + 24 * g4
+
+RbfTaylor(gn, gd, d2, v, S) == RbfTaylor2(gn, gd, d2, v, S) /\ RbfTaylor4(gn, gd, d2, v, S)
 
 RbfPoint(i, o) ==
     LET d2 == D2(i.x, i.z) IN
